@@ -95,6 +95,25 @@ def run(ck: Check) -> None:
             found += 1
             if found >= (6 if ck.thorough else 2):
                 break
+    # keys and signature points of small order (no seed derives them, GnuPG never emits them): valid exactly when the primitive says so, like any other key
+    from cryptography.hazmat.primitives.asymmetric import ed25519 as _ed
+    small = [bytes([1]) + bytes(31), bytes.fromhex("ecffffffffffffffffffffffffffffffffffffffffffffffffffffffffffff7f"), bytes(32), bytes(31) + bytes([0x80]),
+             bytes.fromhex("26e8958fc2b227b045c3f489f2ef98f0d5dfac05d3c63339b13802886d53fc05"), bytes.fromhex("c7176a703d4dd84fba3c0b760d10670f2a2053fa2c39ccc64ec7fd7792ac037a")]
+    nso = 0
+    for A in small:
+        for R in small:
+            for j in range(3 if ck.thorough else 1):
+                data = b"so%d" % (j + rng.randrange(50))
+                hdr = gen.GPG_HDR_TYPICAL
+                sig = R + bytes(32)
+                try:
+                    _ed.Ed25519PublicKey.from_public_bytes(A).verify(sig, gen.gpg_digest(data, hdr))
+                    ok = True
+                except Exception:  # noqa: BLE001
+                    ok = False
+                cases.append(Case("vgpg", [{"other_headers": hdr.hex(), "signature": sig.hex()}, A.hex(), data], tag="small-order-" + ("valid" if ok else "invalid"), group=950 + nso))
+                want.append("OK" if ok else "E InvalidSignature")
+                nso += 1
     res = ck.run_cases(cases, "corr:verify_gpg_signature/outcome-class")
     for r, w in zip(res, want):
         ck.oracle_checks += 1
@@ -104,6 +123,19 @@ def run(ck: Check) -> None:
                          else "verify_gpg_signature rejected a signature valid over SHA-256(payload || hashed headers || 04 ff || be32(len headers))",
                          {"case": r.case.tag, "impl": r.impl, "expected": w, "entry": proto.enc(r.case.args[0])[:500], "key": r.case.args[1], "payload_hex": bytes(r.case.args[2]).hex()[:300]},
                          f"gpg:{r.case.tag}:{r.impl}")
+    # OpenPGP mode counts OpenPGP entries only: an envelope whose authorized signers left raw-format entries (valid as such) is not accepted
+    rcases = []
+    for i in range(ck.n(60, 12)):
+        ks_ = [gen.key(j) for j in rng.sample(range(10), rng.randint(1, 3))]
+        env_ = gen.sign_env(gen.envelope(envgen.payload(rng)), ks_, False)
+        rcases.append(Case("vsignable", [env_, [k.hex for k in ks_], 1, True], tag="raw-entries-in-openpgp-mode", group=7000 + i))
+        mixed = gen.sign_env(copy.deepcopy(env_), ks_[:1], True, rng)          # one proper OpenPGP entry: counts once
+        rcases.append(Case("vsignable", [mixed, [k.hex for k in ks_], 2, True], tag="raw-entries-in-openpgp-mode", group=7000 + i))
+    for r in ck.run_cases(rcases, "corr:verify_signable/outcome-class"):
+        ck.oracle_checks += 1
+        if r.impl != "E SignatureError":
+            ck.violation("in OpenPGP mode an entry that is not an OpenPGP signature over SHA-256(payload || headers || 04 ff || length) was counted",
+                         {"envelope": proto.enc(r.case.args[0])[:800], "impl": r.impl}, "gpg:raw-entry-counted")
     # digests: model's SHA-256 over the model's input construction vs hashlib over the RFC's
     lines, exp = [], []
     for _ in range(80):
